@@ -198,6 +198,9 @@ func (c *Conn) Close() error {
 	if c.native != nil {
 		return c.native.Close()
 	}
+	if vs.Active() && !vs.Aborting() {
+		vs.Point("ws.Close "+c.Name, unsafe.Pointer(c.out))
+	}
 	if c.closed {
 		return errors.New("use of closed network connection")
 	}
